@@ -1851,6 +1851,10 @@ class ShortcutNode(ListNode):
         # the product is a value of its own: a later type conversion (U, LAT, FILL: _convert_to_int
         # re-reads the token) must not fall back to the token of the value it was copied from
         self.nodes[-1]._token = str(self.nodes[-1].value)
+        # ... and the token stands for the product, so the product is the value the node "came with":
+        # otherwise assigning the base's value to the node later looks like "unchanged" and the stale
+        # token (the product) is written
+        self.nodes[-1]._og_value = self.nodes[-1].value
 
     def _expand_jump(self, p):
         try:
